@@ -20,11 +20,12 @@ BOUNDS = {"graphs": "7 derivation graphs with <=3 nodes", "native": "native/c16_
 
 
 def tasks(tier):
-    return _core.defns_tasks() + _core.guard_tasks() + _core.register_frame_tasks() + _core.compile_tasks() + _core.lock_tasks() + _core.update_tasks()
+    return _core.defns_tasks() + _core.defns_history_tasks() + _core.guard_tasks() + _core.register_frame_tasks() + _core.unregister_frame_tasks() + _core.copy_variant_tasks() + _core.compile_tasks() + _core.compile_parent_tasks() + _core.lock_tasks() + _core.update_tasks()
 
 
 def conformance(tier):
-    return [dict(name="native:c16", argv=["c16_graph.py"], violation_on_fail=True)]
+    # parents, variants and siblings that share a function name keep re-entering themselves (recurse / own name): C08's suite
+    return [dict(name="native:c16", argv=["c16_graph.py"], violation_on_fail=True), dict(name="native:c08", argv=["c08_graphs.py"], violation_on_fail=True)]
 
 
 def concretise(obname, detail, task_result, native):
